@@ -233,8 +233,8 @@ func (e *Exec) zero(t types.Type) Value {
 		if u.Kind() == types.UnsafePointer {
 			return Ptr{}
 		}
-		if u.Kind() == types.UntypedNil {
-			return nil
+		if u.Kind() == types.UntypedNil || u.Kind() == types.Invalid {
+			return nil // (unused range key/value slots have invalid type)
 		}
 		if u.Kind() == types.Complex128 || u.Kind() == types.Complex64 {
 			return &Opaque{"complex"}
